@@ -37,7 +37,8 @@ struct in_ea {
 	unsigned long long i;			/* ghost index (post-state well-formedness) */
 	unsigned long long v0;			/* view(K) before the call */
 	unsigned long long v;			/* value argument */
-	unsigned char retnull;
+	unsigned char retnull, exa;
+	unsigned long long keyi, vali;
 	unsigned char choice[4];		/* allocation results */
 };
 struct in_ea IN;
@@ -77,6 +78,8 @@ void *ea_memmove(void *dst, const void *src, size_t n);
 unsigned long long ea_gA, ea_gPA, ea_gK, ea_gPK, ea_gI, ea_gV;
 unsigned long long ea_gPA2, ea_gPK2, ea_gCount2, ea_gCount0;
 int ea_collapsed;
+unsigned long long ea_gKeyI0, ea_gValI0;	/* input: the entry at index ea_gI in the pre-state */
+int ea_gExA;			/* input: A has an entry in the pre-state */
 
 #define EA_CAP (1ULL << 30)	/* int index arithmetic of the real code: (low+high)/2 needs count <= 2^30 */
 
@@ -223,9 +226,10 @@ static int EA_BASIC(const struct ea_refcount *rc)
 /*
  * well_formed as far as an operation relies on it, plus the view: PA_ / PK_ are lower bounds of A / K (partition
  * instances at both of them, at the ghost index and its predecessor, at the last entry and at the effective cursor —
- * each entry is read once), and view(K) == V.
+ * each entry is read once), and view(K) == V; pre = 1: the ghost ea_gExA tells whether A has an entry (pre-state);
+ * pre = 0 (state after a collapse): A has an entry only if it had one in the pre-state (entries are only dropped).
  */
-static int EA_STATE_OK(const struct ea_refcount *rc, unsigned long long PA_, unsigned long long PK_, unsigned long long V)
+static int EA_STATE_OK(const struct ea_refcount *rc, unsigned long long PA_, unsigned long long PK_, unsigned long long V, int pre)
 {
 	unsigned long long n = rc->count, i, k, v;
 	int ok = 1;
@@ -235,7 +239,10 @@ static int EA_STATE_OK(const struct ea_refcount *rc, unsigned long long PA_, uns
 	if (PA_ < n) {
 		k = rc->list[PA_].ea_key;
 		ok = ok && EA_PART2(k, PA_, n, PA_, PK_);
-	}
+		/* pre-state: ea_gExA says whether A has an entry; later: entries are only dropped */
+		ok = ok && (pre ? (ea_gExA != 0) == (k == ea_gA) : (k != ea_gA || ea_gExA != 0));
+	} else
+		ok = ok && (!pre || ea_gExA == 0);
 	if (PK_ < n) {
 		k = rc->list[PK_].ea_key;
 		v = rc->list[PK_].ea_value;
@@ -246,6 +253,8 @@ static int EA_STATE_OK(const struct ea_refcount *rc, unsigned long long PA_, uns
 	if (i < n) {
 		k = rc->list[i].ea_key;
 		ok = ok && EA_PART2(k, i, n, PA_, PK_);
+		if (pre)	/* record the entry at the ghost index (see refcount_collapse) */
+			ok = ok && k == ea_gKeyI0 && rc->list[i].ea_value == ea_gValI0;
 	}
 	i = ea_gI - 1;
 	if (ea_gI >= 1 && i < n) {
@@ -286,7 +295,7 @@ static int EA_POST_OK(const struct ea_refcount *rc, unsigned long long QK, unsig
 }
 
 /* the state the operation starts from */
-#define EA_PRE(rc, key) ((key) == ea_gA && ea_collapsed == 0 && (rc)->count == ea_gCount0 && EA_STATE_OK(rc, ea_gPA, ea_gPK, ea_gV))
+#define EA_PRE(rc, key) ((key) == ea_gA && ea_collapsed == 0 && (rc)->count == ea_gCount0 && EA_STATE_OK(rc, ea_gPA, ea_gPK, ea_gV, 1))
 /* lower bound of K in the post-state: an entry was added (below K) or not */
 #define EA_BCOUNT(rc) (ea_collapsed ? ea_gCount2 : ea_gCount0)	/* ea_gCount0: count on entry */
 #define EA_ADDED(rc) ((rc)->count == EA_BCOUNT(rc) + 1)
@@ -295,6 +304,7 @@ static int EA_POST_OK(const struct ea_refcount *rc, unsigned long long QK, unsig
 #define EA_MUTABLE(rc) (rc)->cursor, (rc)->count, (rc)->size, (rc)->list, __CPROVER_object_whole((rc)->list), \
 	ea_collapsed, ea_gPA2, ea_gPK2, ea_gCount2, ea_dec
 
+#ifndef EA_OWN_COLLAPSE_CONTRACT
 /*
  * refcount_collapse: drops the zero-valued entries.  Abstractly: the result is again well-formed, not longer, has the
  * same view for every key, and the lower bounds of A and K in it are reported in the ghosts.
@@ -308,10 +318,19 @@ static void refcount_collapse(ext2_refcount_t refcount)
 	REQUIRES(0) ASSIGNS();
 static void ea_unused_collapse_contract(ext2_refcount_t refcount)
 #endif
-	REQUIRES(ea_collapsed == 0 && EA_STATE_OK(refcount, ea_gPA, ea_gPK, ea_gV))
+	/*
+	 * called at most once, and in the pre-state of the operation — which is well-formed, with lower bounds ea_gPA / ea_gPK,
+	 * view ea_gV and ea_gExA as the operation's precondition says: the list is the same object, as long, and its entry at
+	 * the arbitrary index ea_gI is the one recorded in the pre-state (ea_gKeyI0 / ea_gValI0, tied by EA_PRE)
+	 */
+	REQUIRES(ea_collapsed == 0 && refcount->count == ea_gCount0 && refcount->size >= refcount->count && refcount->list != 0)
+	REQUIRES(ea_gI >= refcount->count || (refcount->list[ea_gI].ea_key == ea_gKeyI0 && refcount->list[ea_gI].ea_value == ea_gValI0))
 	ASSIGNS(refcount->count, __CPROVER_object_whole(refcount->list), ea_collapsed, ea_gPA2, ea_gPK2, ea_gCount2)
 	ENSURES(ea_collapsed == 1 && refcount->count <= OLD(refcount->count) && ea_gCount2 == refcount->count)
-	ENSURES(EA_STATE_OK(refcount, ea_gPA2, ea_gPK2, ea_gV))
+	ENSURES(EA_STATE_OK(refcount, ea_gPA2, ea_gPK2, ea_gV, 0))
+	/* a lower bound moves down by the number of entries dropped in front of it: at most the number dropped in all */
+	ENSURES(ea_gPA2 <= ea_gPA && ea_gPA - ea_gPA2 <= OLD(refcount->count) - refcount->count)
+	ENSURES(ea_gPK2 <= ea_gPK && ea_gPK - ea_gPK2 <= OLD(refcount->count) - refcount->count)
 	/*
 	 * Case split over the outcome of the collapse of a FULL list (count == size on entry), one unit per case; the two
 	 * cases are exhaustive because count' <= count:  'shrink': a zero-valued entry was dropped, there is room now;
@@ -323,3 +342,4 @@ static void ea_unused_collapse_contract(ext2_refcount_t refcount)
 	ENSURES(refcount->count == OLD(refcount->count))
 #endif
 	;
+#endif
